@@ -44,7 +44,7 @@ def shrink(binary, hist, pred, budget=40):
 
 def run(chk, prop, profiles, n_quick, n_thorough, codes, replay=None, extra_histories=None):
     pid = chk.pid
-    st = vlib.std_coq_stage(chk, prop, gen=True)
+    st = vlib.std_coq_stage(chk, prop, gen=True, extra_targets=["ProcMonitor"])
     rng = random.Random(chk.seed)
     n = n_quick if chk.tier == "quick" else n_thorough
     if replay:
